@@ -457,6 +457,7 @@ async def _port_run(loop: Any, chunks: list[bytes], sig_echoes: int = 0) -> dict
 
     proto.pkt_received = spy  # type: ignore[method-assign]
     ser = FakeSerial()
+    echo_frame = None
     escaped: list[BaseException] = []
     tr = PortTransport(ser, proto, loop=loop, disable_sending=not sig_echoes)
     ser.transport = tr
@@ -465,8 +466,9 @@ async def _port_run(loop: Any, chunks: list[bytes], sig_echoes: int = 0) -> dict
             await asyncio.sleep(0.12)  # two or three polls have been written by now
             sigs = [w for w in ser.written if b" 7FFF " in w]
             if sigs:
-                echo = b"000 " + sigs[-1].strip().replace(b"18:000730", b"18:006402") + b"\r\n"
+                echo = b"000 " + sigs[-1].rstrip().replace(b"18:000730", b"18:006402") + b"\r\n"
                 chunks = [echo * sig_echoes + (chunks[0] if chunks else b"")] + list(chunks[1:])
+                echo_frame = echo[4:].rstrip().decode()
         else:
             await proto.wait_for_connection_made(timeout=5)
         for ch in chunks:
@@ -480,7 +482,8 @@ async def _port_run(loop: Any, chunks: list[bytes], sig_echoes: int = 0) -> dict
         tr.close()
         await vclock.quiesce()
         ser.close()
-    return {"pkts": pkts, "escaped": escaped}
+    # the signature carries the wall-clock time of its creation: its echoes differ from run to run and are not part of the stream under test
+    return {"pkts": [p for p in pkts if p != echo_frame], "escaped": escaped, "n_signature_echoes_delivered": sum(1 for p in pkts if p == echo_frame)}
 
 
 def run_port(chunks: list[bytes], sig_echoes: int = 0) -> dict:
